@@ -1,0 +1,9 @@
+//go:build !verif
+
+package gorums
+
+// verifPoint and verifSrvPoint are no-ops unless the module is built with
+// the "verif" build tag; see verif_on.go.
+func verifPoint(string, *channel) {}
+
+func verifSrvPoint(string) {}
